@@ -19,6 +19,24 @@ func RuledTree(t *rapid.T, depth int, isProp bool, label string) *ref.SNode {
 		k = 0
 	}
 	var n *ref.SNode
+	if rapid.IntRange(0, 7).Draw(t, label+"EmptyOr") == 0 {
+		// an empty container whose `or` alternatives are inline type sets admitting its own kind
+		n = &ref.SNode{Kind: ref.SArr}
+		own := "array"
+		if rapid.Bool().Draw(t, label+"EmptyOrObj") {
+			n.Kind, own = ref.SObj, "object"
+		}
+		other := rapid.SampledFrom([]string{"string", "integer", "boolean"}).Draw(t, label+"EmptyOrOther")
+		items := []ref.OrItem{{Rules: []ref.SRule{StrRule("type", own)}}, {Rules: []ref.SRule{StrRule("type", other)}}}
+		if rapid.Bool().Draw(t, label+"EmptyOrSwap") {
+			items[0], items[1] = items[1], items[0]
+		}
+		n.Rules = []ref.SRule{{Name: "or", ValKind: ref.RVOr, Or: items}}
+		if isProp && rapid.IntRange(0, 3).Draw(t, label+"Opt") == 0 {
+			n.Rules = append(n.Rules, BoolRule("optional", true))
+		}
+		return n
+	}
 	switch {
 	case k <= 5:
 		n, _ = ScalarCase(t, label+"S")
@@ -104,6 +122,10 @@ func Corrupt(t *rapid.T, root *ref.SNode, label string) (*ref.SNode, *Corruption
 			switch r.Name {
 			case "min", "max", "precision", "minLength", "maxLength", "regex", "enum", "minItems", "maxItems":
 				cands = append(cands, cand{n, r.Name})
+			case "or":
+				if (n.Kind == ref.SArr || n.Kind == ref.SObj) && len(n.Items) == 0 && len(n.Props) == 0 {
+					cands = append(cands, cand{n, "or"})
+				}
 			case "type":
 				switch n.TypeName() {
 				case "date", "datetime", "email", "uri", "uuid", "integer", "float", "string", "boolean", "null":
@@ -200,6 +222,10 @@ func Corrupt(t *rapid.T, root *ref.SNode, label string) (*ref.SNode, *Corruption
 			return nil, nil, false
 		}
 		n.Lit, n.Tok, n.Str = nv.Kind, nv.Tok, nv.Str
+	case "or":
+		// declared alternatives that exclude the example's own kind
+		r := n.Rule("or")
+		r.Or = []ref.OrItem{{Rules: []ref.SRule{StrRule("type", "integer")}}, {Rules: []ref.SRule{StrRule("type", "string")}}}
 	case "minItems":
 		k, _ := strconv.Atoi(n.Rule("minItems").Tok)
 		if k == 0 || len(n.Items) == 0 {
